@@ -345,7 +345,23 @@ Theorem C09_penalty_row_is_iterated_difference : forall (A : Arith) (F : OField 
   dot (nth row (finitediff knat order p nspl) []) (map c (seq 0 nspl)) = C09_Stencil.dcoef knat order p c row.
 Proof. intros A F knat order p nspl c row H. exact (C09_Stencil.finitediff_row_is_iterated_difference F knat order p nspl c row H). Qed.
 
-(* (both statements are unconditional identities: there is no hypothesis whose satisfiability would need an example) *)
+(* ... so the one-dimensional penalty term itself, c' P c with P = calc_penalty, IS the sum of the squared p-th iterated divided
+   differences of the coefficients (C09_penalty_is_DtD + the rows above) — with C09_derivative_coefficients_are_the_penalty_stencil
+   below: the sum of the squared B-spline coefficients of the p-th derivative *)
+Theorem C09_penalty_1d_is_sum_of_squared_differences : forall (A : Arith) (F : OField A) (knat : nat -> T A) (order p n : nat) (c : nat -> T A),
+  dot (map c (seq 0 n)) (matvec (calc_penalty [n] knat 0 order p) (map c (seq 0 n))) =
+  sumK (map (fun r => sq (C09_Stencil.dcoef knat order p c r)) (seq 0 (n - p))).
+Proof.
+  intros A F knat order p n c.
+  destruct (C09_penalty_is_DtD F [n] knat 0 order p (map c (seq 0 n)) ltac:(discriminate)) as [_ [_ [H _]]].
+  rewrite H. change (penalty_root [n] knat 0 order p) with (finitediff knat order p n). unfold finitediff.
+  rewrite map_map.
+  rewrite (map_ext_in _ (fun r => sq (C09_Stencil.dcoef knat order p c r)) (seq 0 (n - p))); [reflexivity|].
+  intros r Hr. apply in_seq in Hr.
+  rewrite (C09_Stencil.finitediff_row_expr F knat order p n c r) by lia. reflexivity.
+Qed.
+
+(* (these statements are unconditional identities: there is no hypothesis whose satisfiability would need an example) *)
 
 From PS Require C09_X16Link.
 (* ... the k-th derivative, every k <= degree: in the fully supported range the k-th derivative formula (BSpline.dBfun k, the analytic
@@ -408,5 +424,6 @@ Print Assumptions C09_derivative_is_difference_spline.
 Print Assumptions C09_divided_diffs_order1.
 Print Assumptions C09_penalty_stencil_is_iterated_difference.
 Print Assumptions C09_penalty_row_is_iterated_difference.
+Print Assumptions C09_penalty_1d_is_sum_of_squared_differences.
 Print Assumptions C09_kth_derivative_is_difference_spline.
 Print Assumptions C09_derivative_coefficients_are_the_penalty_stencil.
